@@ -150,13 +150,20 @@ func (v *Vue) Render(w io.Writer, filename string, data any) error {
 		Processors: v.nodeProcessors,
 	})
 
-	// Assign unique IDs to all v-once elements for tracking across deep clones
+	// The cached DOM is shared between renders: stamp the v-once ids on a
+	// private copy, never on the cache entry.
+	domCopy := make([]*html.Node, 0, len(dom))
 	for _, node := range dom {
+		domCopy = append(domCopy, helpers.DeepCloneNode(node))
+	}
+
+	// Assign unique IDs to all v-once elements for tracking across deep clones
+	for _, node := range domCopy {
 		assignSeenAttrs(&vueCtx, node)
 	}
 
 	// Use renderNodesWithContext with pre-configured context
-	return v.renderNodesWithContext(vueCtx, w, dom)
+	return v.renderNodesWithContext(vueCtx, w, domCopy)
 }
 
 // loadCachedWithFrontMatter returns cached template nodes and front-matter data, or loads and caches them.
